@@ -129,6 +129,7 @@ struct Acct {
     labels: BTreeMap<String, u64>,
     samples: Vec<Value>,
     known_hits: BTreeMap<String, u64>,
+    harness_problems: Vec<String>,
 }
 
 pub struct Ctx {
@@ -282,6 +283,29 @@ pub fn guarded<R>(f: impl FnOnce() -> R) -> Result<R, String> {
         Err(_) => Err(LAST_PANIC
             .with(|p| p.borrow_mut().take())
             .unwrap_or_else(|| "panic (no message captured)".into())),
+    }
+}
+
+/// Run an oracle; a panic that escapes it is attributed by location: inside /repo it is a panic of
+/// the code under test (a violation), anywhere else it is a harness problem (inconclusive).
+pub fn run_oracle<T>(oracle: impl FnOnce(&mut Probe) -> Result<(), Fail>, probe: &mut Probe, harness_problems: &mut Vec<String>, what: &T) -> Result<(), Fail>
+where
+    T: Debug + ?Sized,
+{
+    match guarded(|| oracle(probe)) {
+        Ok(r) => r,
+        Err(desc) => {
+            if desc.contains("/repo/") {
+                Err(Fail::new(format!("panic:{}", panic_key(&desc)), format!("the code under test panicked: {desc}")))
+            } else {
+                if harness_problems.len() < 5 {
+                    let mut w = format!("{what:?}");
+                    w.truncate(400);
+                    harness_problems.push(format!("the harness itself panicked ({desc}) on case {w}"));
+                }
+                Ok(())
+            }
+        }
     }
 }
 
@@ -451,6 +475,11 @@ impl Ctx {
             for (s, n) in acct.known_hits {
                 *self.known_hits.entry(s).or_default() += n;
             }
+            for m in acct.harness_problems {
+                if self.inconclusive.len() < 8 {
+                    self.inconclusive.push(format!("{sub}: {m}"));
+                }
+            }
             for s in acct.samples {
                 if self.samples.iter().filter(|v| v["sub"] == sub).count() < 3 {
                     self.samples.push(json!({"sub": sub, "case": s}));
@@ -480,7 +509,13 @@ impl Ctx {
         for case in cases {
             evals += 1;
             let mut probe = Probe::default();
-            let r = oracle(&case, &mut probe);
+            let mut problems = Vec::new();
+            let r = run_oracle(|p| oracle(&case, p), &mut probe, &mut problems, &case);
+            for m in problems {
+                if self.inconclusive.len() < 8 {
+                    self.inconclusive.push(format!("{sub}: {m}"));
+                }
+            }
             for l in &probe.labels {
                 *self.labels.entry(sub.to_string()).or_default().entry(l.clone()).or_default() += 1;
             }
@@ -518,7 +553,9 @@ impl Ctx {
             Ok(c) => {
                 self.evaluations += 1;
                 let mut probe = Probe::default();
-                let r = oracle(&c, &mut probe);
+                let mut problems = Vec::new();
+                let r = run_oracle(|p| oracle(&c, p), &mut probe, &mut problems, &c);
+                self.inconclusive.extend(problems.into_iter().map(|m| format!("{sub}: {m}")));
                 if probe.nontrivial {
                     self.nontrivial.insert(hash64(&case.to_string()) ^ fnv(sub));
                 }
@@ -668,7 +705,7 @@ where
         acct.evaluations += 1;
         let mut probe = Probe::default();
         beat(slot, sub, acct.evaluations, true);
-        let r = oracle(&value, &mut probe);
+        let r = run_oracle(|p| oracle(&value, p), &mut probe, &mut acct.harness_problems, &value);
         beat(slot, sub, acct.evaluations, false);
         for l in probe.labels.drain(..) {
             *acct.labels.entry(l).or_default() += 1;
@@ -698,7 +735,7 @@ where
                         iters += 1;
                         let v = tree.current();
                         let mut p = Probe::default();
-                        match oracle(&v, &mut p) {
+                        match run_oracle(|p| oracle(&v, p), &mut p, &mut Vec::new(), &v) {
                             Err(f) if !known.contains(&f.signature) => {
                                 best = (f, v);
                                 continue 'shrink;
